@@ -199,6 +199,14 @@ func main() {
 	start := time.Now()
 	work := filepath.Join(root, ".work", fmt.Sprintf("%s-%d-%d", id, os.Getpid(), start.UnixNano()%1000000))
 	bin := filepath.Join(root, ".work", "bin")
+	// scratch directories of earlier runs are kept when they ended in a violation (for inspection): drop old ones
+	if ents, err := os.ReadDir(filepath.Join(root, ".work")); err == nil {
+		for _, e := range ents {
+			if fi, err := e.Info(); err == nil && e.IsDir() && e.Name() != "bin" && time.Since(fi.ModTime()) > 24*time.Hour {
+				os.RemoveAll(filepath.Join(root, ".work", e.Name()))
+			}
+		}
+	}
 	os.MkdirAll(work, 0o755)
 	os.MkdirAll(bin, 0o755)
 	replayDir := filepath.Join(root, "replays")
